@@ -21,7 +21,7 @@ Rec == ndJsonDeserialize(IOEnv.TRACE)
 VARIABLES l, k, st, ok, aborted
 tvars == <<l, k, st, ok, aborted>>
 
-TraceInit == l = 1 /\ k = 1 /\ st = InitState /\ ok = TRUE /\ aborted = FALSE /\ TLCSet(1, 1) /\ TLCSet(2, <<>>)
+TraceInit == l = 1 /\ k = 1 /\ st = InitState /\ ok = TRUE /\ aborted = FALSE /\ TLCSet(1, 1) /\ TLCSet(2, {})
 
 TrOp == /\ l <= Len(Rec) /\ k <= Len(Rec[l].ops) /\ ~aborted
         /\ LET o == Rec[l].ops[k] r == ADo(st, o) IN
@@ -36,7 +36,7 @@ TrEnd == /\ l <= Len(Rec) /\ (k > Len(Rec[l].ops) \/ aborted)
          /\ LET good == /\ ok
                         /\ Rec[l].out = (IF aborted THEN "revert" ELSE "return")
                         /\ (~aborted => Len(Rec[l].obs) = Len(Rec[l].ops) /\ Rec[l].tail.ret = <<>> /\ Rec[l].tail.dump = <<>>)
-            IN IF good THEN TRUE ELSE TLCSet(2, Append(TLCGet(2), l))
+            IN IF good THEN TRUE ELSE TLCSet(2, TLCGet(2) \cup {l})
          /\ TLCSet(1, l + 1)
          /\ l' = l + 1 /\ k' = 1 /\ st' = InitState /\ ok' = TRUE /\ aborted' = FALSE
 
@@ -45,7 +45,6 @@ TraceSpec == TraceInit /\ [][TraceNext]_tvars
 
 Accepted ==
     IF TLCGet(1) # Len(Rec) + 1 THEN Print(<<"FIRST-UNMATCHED", TLCGet(1)>>, FALSE)
-    ELSE IF TLCGet(2) = <<>> THEN TRUE
-    ELSE Print(<<"REJECTED", ToJson([i \in DOMAIN TLCGet(2) |->
-                    [idx |-> TLCGet(2)[i], id |-> Rec[TLCGet(2)[i]].id, why |-> "history"]])>>, FALSE)
+    ELSE IF TLCGet(2) = {} THEN TRUE
+    ELSE Print(<<"REJECTED", ToJson({ [idx |-> i, id |-> Rec[i].id, why |-> "history"] : i \in TLCGet(2) })>>, FALSE)
 =============================================================================
